@@ -68,8 +68,11 @@ class Machine:
         # modal words that act on their own
         if "F" in pdict:
             self.F = pdict["F"].value
+        # S is a temperature on heater codes, a fan speed on M106 and a time on
+        # the plain halt codes: not a spindle speed there
         handled_S_as_temp = any(c in ("M104", "M109", "M140", "M190", "M141",
-                                      "M191", "M106", "M107") for c in codes_n)
+                                      "M191", "M106", "M107", "M0", "M1", "M2",
+                                      "M30", "M60", "M400") for c in codes_n)
         if "S" in pdict and not handled_S_as_temp:
             self.S = pdict["S"].value
 
